@@ -209,6 +209,10 @@ func (fs *FakeServer) serve(ci int, c net.Conn) {
 		if a.TailMs > 0 && a.TailLen > 0 && a.Framing != "chunked" && len(payload) >= a.TailLen {
 			cut = len(out) - a.TailLen
 		}
+		if a.TailMs > 0 && a.TailLen > 0 && a.Framing == "chunked" && len(b) >= 2*a.TailLen+2 && req.Method != "HEAD" {
+			// the delayed part starts exactly at the tail of the last chunk's data (followed by the chunked terminator)
+			cut = len(out) - a.TailLen - len("\r\n0\r\n\r\n")
+		}
 		first := out[:cut]
 		if a.CloseAt > 0 && a.CloseAt < len(out) {
 			if a.CloseAt < len(first) {
